@@ -41,14 +41,15 @@ MANIFEST = {
                   "decode-time gap refuted). TOTAL forms with hypotheses on the input only (consistent, data_ok, a plan exists, "
                   "every planned segment resp. the whole input below 2 GiB): the in-memory and the -lazy writer DO return "
                   "without error and read back the expansion (C11_segmenter_total, C11_segmenter_lazy_total, "
-                  "C11_write_segment_total), Resegment / Fragmentify DO write every piece - Resegment's possibly empty first "
+                  "C11_write_segment_total), so does the multiplexed writer without trun optimisation, as the tool runs it "
+                  "(C11_segmenter_mux_total; C11_plan_ordered), Resegment / Fragmentify DO write every piece - Resegment's possibly empty first "
                   "segment included, as the tool runs it without trun optimisation - and the decoded pieces concatenate to "
                   "the input (C11_resegment_total, C11_resegment_total_all, C11_write_segment_empty, C11_fragmentify_total). combine-segs: reading each track back from the multi-track fragment returns its "
                   "input list, and reading with trex = nil equals reading with the trex exactly when no field relies on trex "
                   "defaults. Only explored by correspondence/search, not proved: the byte-level box codecs of moof/mdat/styp and "
                   "DecodeFile's regrouping of a box stream into segments and fragments (C05 proves the tfhd/trun codecs and is "
-                  "adding the segment level); the total form for the multiplexed writer (its end-to-end theorem assumes "
-                  "that Encode returned); init segments (stsd copy, trex); a track carrying both stco and co64 in the "
+                  "adding the segment level); the multiplexed writer's total form WITH trun optimisation (the tool does "
+                  "not use it; the conditional end-to-end theorem covers it); init segments (stsd copy, trex); a track carrying both stco and co64 in the "
                   "-lazy writer; combine-segs at the decoded level.",
     "level_note": "Trusted: Coq kernel, extraction (ExtrOcamlBasic), the OCaml/Go glue, the file synthesizer and reader in the "
                   "harness (they use mp4ff's own box encoders/decoders and GetFullSamples). The models are hand transcriptions "
